@@ -6,6 +6,7 @@ use vstd::prelude::*;
 use std::ops::{Add, Mul};
 use std::collections::HashMap;
 use std::collections::HashSet;
+use std::hash::{Hash, Hasher};
 
 // `format!` content and `log` output are irrelevant to every property decided here:
 // the macros are shadowed so that verbatim bodies containing them are accepted.
